@@ -66,6 +66,7 @@ class Project:
         self.imports = {}       # relpath -> [(position, target relpath, spelling)]
         self.entry = None
         self.cyclic = False
+        self.decoys = []
 
 
 def gen_project(r, root, nfiles=None, cyclic=False, positions=None, with_include=True):
@@ -107,7 +108,9 @@ def gen_project(r, root, nfiles=None, cyclic=False, positions=None, with_include
         if back and back[0] == i:
             targets.append(back[1])
         for j in targets:
-            pos = r.choice(pos_names)
+            # the plain `let x = import "..";` is what programs are made of (and the only form the static checker resolves):
+            # a third of all imports use it, the rest is spread over the other positions
+            pos = "top-level-let" if ("top-level-let" in pos_names and r.random() < 0.33) else r.choice(pos_names)
             sp = spell(r, posixpath.dirname(path), paths[j], root)
             imp = "import \"%s\"" % sp
             name = "i%d" % k
@@ -141,6 +144,21 @@ def gen_project(r, root, nfiles=None, cyclic=False, positions=None, with_include
         p.includes = {paths[j]: ("payload-%d" % j)}
     else:
         p.includes = {}
+    # decoys: files with the same base name as a real file, in OTHER directories, that nothing imports.  A resolver that
+    # joins a relative import with the wrong directory finds one of them: it exports the same names with other types
+    # (type error / wrong value), or imports the entry (bogus cycle), and its TRACE id is not a real file's.
+    for j in range(n):
+        base = posixpath.basename(paths[j])
+        for d2 in DIRS:
+            cand = posixpath.join(d2, base) if d2 else base
+            if cand in p.files or r.random() < 0.5:
+                continue
+            if r.random() < 0.5:
+                p.files[cand] = "let traceid = TRACE \"DECOY\";\nlet val = \"decoy\";\nlet msg = 1;\n"
+            else:
+                p.files[cand] = ("let traceid = TRACE \"DECOY\";\nlet back = import \"%s\";\nlet val = back.val;\nlet msg = \"decoy\";\n"
+                                 % posixpath.join(root, paths[0]))
+            p.decoys.append(cand)
     p.entry = paths[0]
     p.paths = paths
     p.edges = edges
